@@ -15,9 +15,9 @@ GapOK(modelSt, logSt) ==
   /\ [modelSt EXCEPT !.gapLim = logSt.gapLim] = logSt
   /\ modelSt.gapLim \/ ~logSt.gapLim
 \* a worker that is being shut down may or may not still authenticate
+\* (nor does one whose companion is not attached to the actor tree yet)
 AliveChoices(w) == IF w = "" THEN {FALSE}
-                   ELSE IF life[w] = "up" THEN {TRUE}
-                   ELSE IF life[w] = "leaving" THEN {TRUE, FALSE} ELSE {FALSE}
+                   ELSE IF life[w] \in {"up", "leaving"} THEN {TRUE, FALSE} ELSE {FALSE}
 
 TInit == /\ l = 1 /\ wp = WP0 /\ cc = [w \in Workers |-> CC0] /\ life = [w \in Workers |-> "no"]
          /\ sent = {} /\ box = Box0
